@@ -55,6 +55,10 @@ EXPLANATION += (
     " Round 11: no handler around a dispatch absorbs the drain's error (R-HANDLER/dispatch-failure)."
 )
 
+EXPLANATION += (
+    ' Round 16: interrupt and exit handlers on worker paths re-raise (R-HANDLER/no-swallow).'
+)
+
 RULE_TEXT = (
     "one obligation per (rule, construct): spawn site x collection, exit-"
     "code test, removal site, handler, (stage, output write, spawn point), "
